@@ -432,8 +432,19 @@ pub struct RunOutput {
 
 /// Execute one case in a subprocess (isolation against aborts), with an optional horizon.
 pub fn run_case_subprocess(id: &str, tier: Tier, case: &str, active: &HashSet<String>, horizon_s: Option<u64>) -> RunOutput {
+    run_case_subprocess_cpu(id, tier, case, active, horizon_s, None)
+}
+
+/// ... with a horizon in CPU seconds as well (RLIMIT_CPU in the child): unlike the wall-clock
+/// horizon it does not depend on how busy the machine is; the wall clock stays as the backstop
+/// for runs that wait without computing
+pub fn run_case_subprocess_cpu(id: &str, tier: Tier, case: &str, active: &HashSet<String>, horizon_s: Option<u64>, cpu_s: Option<u64>) -> RunOutput {
     let exe = std::env::current_exe().unwrap();
-    let mut child = Command::new(exe)
+    let mut cmd = Command::new(exe);
+    if let Some(c) = cpu_s {
+        cmd.env("MC_CPU_LIMIT", c.to_string());
+    }
+    let mut child = cmd
         .arg("--one")
         .arg(id)
         .arg(tier.name())
@@ -468,6 +479,12 @@ pub fn run_case_subprocess(id: &str, tier: Tier, case: &str, active: &HashSet<St
         }
     };
     let status = child.wait().ok();
+    {
+        use std::os::unix::process::ExitStatusExt;
+        if let (Some(c), Some(libc::SIGXCPU)) = (cpu_s, status.and_then(|st| st.signal())) {
+            return RunOutput { failures: vec![], died: Some(format!("no completion within the horizon of {} s of CPU time", c)) };
+        }
+    }
     match out {
         None => RunOutput { failures: vec![], died: Some(format!("no completion within the {} s horizon", horizon)) },
         Some(o) => {
